@@ -280,6 +280,44 @@ func (a *LiquidatorAgent) Step(s *Sim) {
 	}
 	ctx := s.Ctx()
 	bot := s.user(r)
+	// a competent bot: one message naming every open position (healthy ones are merely
+	// settled and skipped, all unhealthy ones of a pool are liquidated in one batch)
+	if r.IntN(3) == 0 {
+		if mt := s.N0.App.PerpetualKeeper.GetAllMTPs(ctx); len(mt) > 0 && r.IntN(2) == 0 {
+			msg := &perpetualtypes.MsgClosePositions{Creator: bot.Addr.String()}
+			for _, m := range mt {
+				req := perpetualtypes.PositionRequest{Address: m.Address, Id: m.Id}
+				msg.Liquidate = append(msg.Liquidate, req)
+				if r.IntN(2) == 0 {
+					msg.StopLoss = append(msg.StopLoss, req)
+				}
+				if r.IntN(2) == 0 {
+					msg.TakeProfit = append(msg.TakeProfit, req)
+				}
+				if len(msg.Liquidate) >= 12 {
+					break
+				}
+			}
+			s.Stats.Probe("bot_sweeps_all_positions")
+			s.SendTx(bot, "bot/perp_sweep_all", msg)
+		} else if lp := s.N0.App.LeveragelpKeeper.GetAllPositions(ctx); len(lp) > 0 {
+			msg := &leveragelptypes.MsgClosePositions{Creator: bot.Addr.String()}
+			for _, p := range lp {
+				req := &leveragelptypes.PositionRequest{Address: p.Address, Id: p.Id}
+				if r.IntN(2) == 0 {
+					msg.Liquidate = append(msg.Liquidate, req)
+				} else {
+					msg.StopLoss = append(msg.StopLoss, req)
+				}
+				if len(msg.Liquidate)+len(msg.StopLoss) >= 12 {
+					break
+				}
+			}
+			s.Stats.Probe("bot_sweeps_all_positions")
+			s.SendTx(bot, "bot/levlp_sweep_all", msg)
+		}
+		return
+	}
 	// leveragelp
 	lpos := s.N0.App.LeveragelpKeeper.GetAllPositions(ctx)
 	if len(lpos) > 0 && r.IntN(2) == 0 {
